@@ -438,6 +438,47 @@ def c08_copy(name, how, with_programs, T=4, pops=1, transfers=0, partial_init=Fa
     return body
 
 
+def c08_leak(units_a, units_b, T=3):
+    """A model built and run, then a *different* model (other transfer units) built and run in the same process, then the first one
+    built again from the same inputs: the two builds of the first model run identically, and the transfer parameter holds the
+    entered value (no state leaks from one model to the next through the library's module-level settings)"""
+
+    def body(env):
+        am, ap, au, apar, afp = mr.modules()
+        from checks.modelstep import Hooks
+
+        PA = project("M1", T, 0.25, pops=2, transfers=1, transfer_units=units_a)
+        PB = project("M1", T, 0.25, pops=2, transfers=1, transfer_units=units_b)
+        s1, s2 = _session(env)
+        with s1, s2:
+            psA = copy.deepcopy(PA.parsets[0])
+            sym = mr.symbolize_parset(env, psA, PA.framework, comps=False)
+            entered = {nm: ts.assumption for (nm, src), ts in sym.items() if "_to_" in nm}
+            m0 = am.Model(PA.settings, PA.framework, PA.parsets[0])
+            psA.initialization = mr.symbolic_state(env, m0)
+            first = mr.build_model(env, PA.settings, PA.framework, psA)
+            other = am.Model(PB.settings, PB.framework, copy.deepcopy(PB.parsets[0]))
+            other.process()
+            again = mr.build_model(env, PA.settings, PA.framework, psA)
+            for pop in again.pops:
+                for par in pop.pars:
+                    if par.name in entered:
+                        for ti in range(len(again.t)):
+                            env.claim("transfer_parameter_holds_entered_value|%s|t%d" % (par.name, ti), env.eq(par.vals[ti], entered[par.name], 0), key="transfer_value")
+            ls = Lockstep(env, am)
+            if env.symbolic:
+                env.heap(mr.all_vars(first) + [first])
+            with Hooks(am, post=ls.hooks_A()):
+                first.process()
+            if env.symbolic:
+                env.heap(mr.all_vars(again) + [again])
+            with Hooks(am, post=ls.hooks_B(0, None, "rebuilt_after_other_model", "leak")):
+                again.process()
+            compare_rest(env, am, first, again, [(i, i) for i in range(len(first.t))], "rebuilt_after_other_model", "leak")
+
+    return body
+
+
 def M10b():
     d = gen.M10()
     d["name"] = "M10b"
@@ -551,6 +592,7 @@ def specs(prop, tier):
         out.append(("copy[M1;rebuild;partial initialization]", c08_copy, dict(name="M1", how="rebuild", with_programs=False, partial_init=True)))
         out.append(("interleave[deepcopy]", c08_interleave, dict(how="deepcopy")))
         out.append(("interleave[pickle]", c08_interleave, dict(how="pickle")))
+        out.append(("other_model_in_between[probability transfer;duration transfer]", c08_leak, dict(units_a="probability", units_b="duration")))
         if not q:
             out.append(("copy[M1;pickle;2 pops;transfer]", c08_copy, dict(name="M1", how="pickle", with_programs=False, pops=2, transfers=1)))
             out.append(("copy[M8;deepcopy]", c08_copy, dict(name="M8", how="deepcopy", with_programs=False)))
